@@ -4,16 +4,16 @@ check('C12', 'proof',
       'contract-based deductive verification: ast->z3 VC generation from the real source, sidecar contracts, z3 discharge', 'DESIGN.md 5-C12')
 
 check('C01', 'other',
-      'Proved (unbounded): LUT constants = truth tables of their names, kind_prefixes family selection, and the 2-valued evaluation loop in both copies computes the fold of the per-op spec step for any op list and memory map. Bounded: translation/assign/capture/cycle and netlist-level composition on a stated circuit space against a gate-by-gate oracle.',
-      'requires of the loop contract, SimOps translation, numpy advanced indexing and the composition to netlist level are bounded evidence only; numpy element-wise semantics assumed',
+      'Proved (unbounded): LUT constants = truth tables of their names, kind_prefixes family selection, the 2-valued evaluation loop in both copies = fold of the per-op spec step for any op list and memory map, composition invariant over the op list under memory-map hypotheses, translation of one node (rows appended per node incl. primitive selection), s_to_c / c_to_s / s_ppo_to_ppi. Bounded: whole-netlist translation (topological order, stems), cycle and the end-to-end result on a stated circuit space against a gate-by-gate oracle.',
+      'topological order of the node sequence, stems, memory-map hypotheses partly (A2, disjointness proved in C08) and the end-to-end composition are bounded evidence; numpy gather/scatter and element-wise semantics assumed',
       'contract-based deductive verification (ast->z3 VCs with loop invariant over the op list) + bounded runtime-contract stand-in', 'DESIGN.md 5-C01')
 check('C02', 'other',
       'Proved (unbounded): 4-/8-valued evaluation loops against the callee contracts of the bit-parallel operators (C12), per-primitive X-soundness and 8v/2v lemmas over the spec. Bounded: real LogicSim(m=4,8) vs netlist oracle.',
       'lifting of the per-primitive lemmas to circuits is a paper induction; translation and composition are bounded evidence only',
       'contract-based deductive verification (modular calls, loop invariant) + finite lemmas in z3 + bounded stand-in', 'DESIGN.md 5-C02')
 check('C08', 'other',
-      'Bounded today: HeapInv + abstract view on all alloc/free histories up to a stated length on the real Heap; MapValid (token simulation of liveness, aliases, capacities, c_len) on real SimOps instances. Heap.alloc/free under pyvc contract: see evidence (counted only when discharged).',
-      'bounded evidence for the memory map; library contracts of bisect/insort assumed',
+      'Proved (unbounded): Heap.__init__/alloc/free re-establish HeapInv with the abstract-view postconditions (all histories by induction); the allocation phase of SimOps.__init__ against the Heap contract with ghost reference counting: operands live when read, live slots disjoint, freed only when unreferenced and unpinned, pinned slots never freed, regions inside c_len, exact aliasing, no double free. Bounded: same invariant on all histories up to a stated length on the real Heap; MapValid and the requires of the phase contracts on real SimOps instances.',
+      'translation phase (ops, stems) bounded; its guarantees are the requires of the phase contracts and are evaluated on real instances; bisect/insort library contracts assumed',
       'contract-based: representation invariant + abstract-view postconditions (pyvc) with exhaustive-history bounded stand-in', 'DESIGN.md 5-C08')
 check('C16', 'other',
       'Proved (unbounded): call-site obligations of inject_cb in all three loops with a ghost call log (exactly once per evaluated line, Line identity, writable view of the fresh row, downstream ops read what the callback wrote). Bounded: behavioural equivalence with an overridden line vs netlist oracle.',
@@ -24,8 +24,8 @@ check('C17', 'exploration',
       'bounded only (generators over an object graph are outside the VC generator); oracle = spec-side graph search',
       'bounded runtime-contract stand-in (no deductive part within reach)', 'DESIGN.md 5-C17')
 check('C03', 'other',
-      'Proved (unbounded, all LUTs / operand waveforms / capacities >= 4 / delays >= 0 / dataset modes): _wave_eval output is well formed, its final value (parity) and its initial value are the LUT of the operand final / initial values also on the overflow path, frame and lane clauses, termination; capture and assign kernels. Bounded: composition over the op list and translation on real runs against the netlist oracle.',
-      'extended-real model of float32 time stamps, integers mathematical, sd = 0; composition/translation/s_to_c bounded only',
+      'Proved (unbounded, all LUTs / operand waveforms / capacities >= 4 / delays >= 0 / dataset modes): _wave_eval output is well formed, its final value (parity) and its initial value are the LUT of the operand final / initial values also on the overflow path, frame and lane clauses, termination; capture and assign kernels; WaveSim.s_to_c encoding; composition over op list x lanes x levels (level_eval_cpu, WaveSim.c_prop) under memory-map hypotheses. Bounded: the hypotheses, translation and the end-to-end result on real runs against the netlist oracle, incl. instance re-use.',
+      'extended-real model of float32 time stamps, integers mathematical, sd = 0; memory-map hypotheses A1-A4w partly proved (C08) otherwise bounded; GPU path composed per thread only',
       'contract-based deductive verification (ast->z3 VCs, quantified loop invariant with term-collection instantiation) + bounded stand-in', 'DESIGN.md 5-C03')
 check('C04', 'other',
       'Proved (unbounded, per operation): one-op static-timing step (every finite output entry of _wave_eval inside the window spanned by operand entries + line delays) and strict monotonicity of the stored time stamps under polarity-independent delays. Bounded: netlist-level STA window, rigid shift, power-of-two scaling (down to 2^-24), monotonicity on real runs (dyadic grid).',
@@ -44,13 +44,13 @@ check('C07', 'other',
       'commutation lemma on paper; levelisation loop bounded only; mock GPU only',
       'contract-based frames (pyvc) + bounded stand-in for schedules', 'DESIGN.md 5-C07')
 check('C13', 'other',
-      'Proved: wave_capture_cpu and wave_capture_gpu against folds over the waveform (init, EAT, LST, final, value just before T, overflow marker), Q4 rise/fall counts and Q6 overflow propagation of _wave_eval. Bounded: capacity-independence when the indicator is clear, abuf totals, a_ctrl plumbing.',
-      'sd = 0; extended-real time model; accumulation loop and capacity relation bounded only',
+      'Proved: wave_capture_cpu and wave_capture_gpu against folds over the waveform (init, EAT, LST, final, value just before T, overflow marker), Q4 rise/fall counts and Q6 overflow propagation of _wave_eval, accumulation recurrence of level_eval_cpu / wave_eval_gpu with exactly-once evaluation, WaveSim.c_to_s (every port row gets the capture of its own slot). Bounded: capacity-independence when the indicator is clear (incl. an overflow-propagation family), abuf totals, a_ctrl plumbing.',
+      'sd = 0; extended-real time model; capacity relation bounded only',
       'contract-based deductive verification with ghost fold functions + bounded stand-in', 'DESIGN.md 5-C13')
 check('C09', 'other',
-      'Bounded (deciding): wf class invariant after every step of edit histories over the public API (exhaustive small + seeded long). Container primitives under contract where discharged (see evidence).',
-      'well-formed use per the property; object-graph constructors/removers bounded only',
-      'runtime class invariant as bounded stand-in; container primitives by pyvc when present', 'DESIGN.md 5-C09')
+      'Proved (unbounded, from any well-formed state): Node.__init__, Node.remove, Line.__init__ (explicit free pins / first free pins), Line.remove and the container primitives re-establish the well-formedness clauses W0-W6 and change exactly what they state (object-heap model). Bounded: wf class invariant after every step of edit histories over the public API (exhaustive small + seeded long) and after the rewiring transformations.',
+      'well-formed use per the property; rewiring transformations (eliminate_1to1_forks, substitute, copy, pickle) bounded only; free_index by an assumed contract',
+      'contract-based deductive verification on an object heap (representation invariant as pre/postcondition, loop invariant for the re-numbering) + runtime class invariant as bounded stand-in', 'DESIGN.md 5-C09')
 check('C10', 'exploration',
       'Bounded over circuits and pin subsets, complete over input valuations (z3): every library cell and synthetic implementation shape resolves without exception, keeps wf, names/order of ports and state elements, and the observed function; copy/pickle/eliminate and compositions on the shared circuit space.',
       'spec evaluator incl. hierarchical instance semantics is the oracle; no deductive part within reach (object surgery)',
@@ -73,5 +73,5 @@ check('C20', 'exploration',
       'Bounded round-trip contract with a spec-side DEF printer: all sections, wildcard resolution, via arrays, per-layer listings for special and regular nets.',
       'parser outside the VC generator', 'bounded runtime round-trip contract (ghost design)', 'DESIGN.md 5-C20')
 check('C15', 'other',
-      'Bounded (deciding): conversion contracts on the real functions vs an independent bit-by-bit oracle over shapes <= 3 axes / extents <= 10 (+16, 17), strings, aliases, 9 dtypes; popcount table under pyvc where discharged.',
-      'numpy bit twiddling is not modelled by the VC generator; bounded evidence', 'bounded runtime contracts (+ ground obligations for the popcount table)', 'DESIGN.md 5-C15')
+      'Proved (unbounded in the extents): unpackbits, packbits (uint8), mv_to_bp, bp_to_mv element-wise on a functional array model and the round trip bp_to_mv(mv_to_bp(x)) = x & 7; popcount table. Bounded: interpret / mvarray / mv_str / bparray and other dtypes vs an independent bit-by-bit oracle over shapes <= 3 axes / extents <= 10 (+16, 17), strings, aliases, 9 dtypes.',
+      'numpy packbits/unpackbits/swapaxes/pad/slicing by assumed contracts; string handling bounded', 'contract-based deductive verification on a functional array model + bounded runtime contracts', 'DESIGN.md 5-C15')
